@@ -128,3 +128,96 @@ def small_y_points(count=3):
             out.append((x, y))
         y += 1
     return out
+
+
+def cubic_roots(c0):
+    """roots x in F_p of x^3 + a x + c0"""
+    acc, base, e = [1, 0, 0], [0, 1, 0], p
+    while e:
+        if e & 1:
+            acc = _pmulmod(acc, base, c0)
+        base = _pmulmod(base, base, c0)
+        e >>= 1
+    g = _pgcd([c0, a, 0, 1], [acc[0] % p, (acc[1] - 1) % p, acc[2]])
+    if len(g) == 2:
+        return [(-g[0]) * pow(g[1], -1, p) % p]
+    if len(g) == 3:
+        inv = pow(g[2], -1, p)
+        B, C = g[1] * inv % p, g[0] * inv % p
+        disc = (B * B - 4 * C) % p
+        sq = pow(disc, (p + 1) // 4, p)
+        if sq * sq % p == disc:
+            i2 = pow(2, -1, p)
+            return [(-B + sq) * i2 % p, (-B - sq) * i2 % p]
+    if len(g) == 4:
+        # all three roots in F_p: split with a random shift
+        import random
+        r = random.Random(c0)
+        for _ in range(40):
+            dl = r.randrange(p)
+            # (x + dl)^((p-1)/2) mod f
+            acc, base, e = [1, 0, 0], [dl, 1, 0], (p - 1) // 2
+            while e:
+                if e & 1:
+                    acc = _pmulmod(acc, base, c0)
+                base = _pmulmod(base, base, c0)
+                e >>= 1
+            h = _pgcd([c0, a, 0, 1], [(acc[0] - 1) % p, acc[1], acc[2]])
+            if len(h) in (2, 3):
+                rts = []
+                if len(h) == 2:
+                    rts.append((-h[0]) * pow(h[1], -1, p) % p)
+                else:
+                    inv = pow(h[2], -1, p)
+                    B, C = h[1] * inv % p, h[0] * inv % p
+                    disc = (B * B - 4 * C) % p
+                    sq = pow(disc, (p + 1) // 4, p)
+                    i2 = pow(2, -1, p)
+                    rts += [(-B + sq) * i2 % p, (-B - sq) * i2 % p]
+                return [x for x in rts if (x * x * x + a * x + c0) % p == 0]
+    return []
+
+
+def same_y_partner(P):
+    """another curve point with the same y and a different x (roots of x^3 + a x + b - y^2 other than x1), or None"""
+    x1, y1 = P
+    disc = (12 - 3 * x1 * x1) % p          # t^2 + x1 t + (x1^2 + a) = 0 with a = -3
+    sq = pow(disc, (p + 1) // 4, p)
+    if sq * sq % p != disc:
+        return None
+    x2 = (-x1 + sq) * pow(2, -1, p) % p
+    return (x2, y1) if on_curve(x2, y1) and x2 != x1 else None
+
+
+def near_miss_points(rng, bits, mont=True):
+    """off-curve (x, y') such that y'^2 and x^3 + a x + b differ in exactly ONE bit (position from `bits`) of their Montgomery
+    (mont=True) or canonical representation: a comparison that looks at part of the words only accepts them"""
+    out = []
+    for bit in bits:
+        for _ in range(40):
+            x = rng.randrange(p)
+            rhs = (x * x * x + a * x + b) % p
+            rep = rhs * R % p if mont else rhs
+            rep2 = rep ^ (1 << bit)
+            if rep2 >= p:
+                continue
+            v = rep2 * pow(R, -1, p) % p if mont else rep2
+            y = pow(v, (p + 1) // 4, p)
+            if y * y % p == v and not on_curve(x, y):
+                out.append((bit, x, y))
+                break
+    return out
+
+
+def points_with_rhs(values):
+    """curve points (x, y) with y^2 = x^3 + a x + b equal to a prescribed value v (for v a square): solves the cubic"""
+    out = []
+    for v in values:
+        y = pow(v, (p + 1) // 4, p)
+        if y * y % p != v % p:
+            continue
+        for x in cubic_roots((b - v) % p):
+            if on_curve(x, y):
+                out.append((x, y))
+                break
+    return out
